@@ -168,7 +168,7 @@ def convert(raw, inputs, table_out):
             opts.append({"name": chars(name), "syn": [chars(unhx(s)) for s in o["syn"]], "type": o["type"],
                          "wild": o["wild"], "builtin": name.decode() not in MINE})
             table_out.append((name, o["type"], o["wild"]))
-        return {"e": "Table", "opts": opts}
+        return {"e": "Table", "opts": opts, "decls": [chars(unhx(x)) for x in raw.get("decls", [])]}
     if raw["e"] != "Run":
         return raw
     inp = inputs[raw["id"]]
@@ -317,6 +317,24 @@ def run(tier):
     lines = [convert(r, inputs, table) for r in raws]
     if not lines or lines[0]["e"] != "Table":
         raise Broken("no option table from the harness")
+    # the table first, on its own: a table that lost registered names makes everything after it meaningless
+    tp = os.path.join(d, "table-%s.ndjson" % tier)
+    with open(tp, "w") as f:
+        f.write(json.dumps(lines[0]) + "\n")
+    ok0, res0 = validate_trace("TraceOptions", "TraceOptions.cfg", tp, cwd=CORE, xmx="2g")
+    if len(printed_json(res0, "DONE")) != 1:
+        raise Broken("TraceOptions did not consume the table line\n" + res0.out[-2500:])
+    if printed_json(res0, "BAD"):
+        e = lines[0]
+        names = [["".join(o["name"])] + ["".join(x) for x in o["syn"]] for o in e["opts"] if not o["builtin"]]
+        v = Verdict(PID)
+        v.violation("table:names", "the option table does not hold every registered name list as name + synonyms: registered %s, table %s"
+                    % (json.dumps(["".join(x) for x in e["decls"]]), json.dumps(names)), {"table": names})
+        rcode, nnew = v.finish()
+        write_evidence(PID, tier, {"states": res0.distinct, "transitions": res0.generated, "traces_validated_against_impl": 1,
+                                   "explanation": "the option table was rejected; nothing else was examined", "violations_new": nnew},
+                       time.time() - t0, violations=nnew)
+        return rcode
     accounted = {e["id"] for e in lines if e["e"] == "Run"} | {int(e["ctx"]) for e in lines if e["e"] == "Crash" and str(e.get("ctx", "")).isdigit()}
     if len(accounted) != len(inputs):
         raise Broken("harness accounted for %d of %d cases\n%s" % (len(accounted), len(inputs), se[-1500:]))
@@ -354,6 +372,10 @@ def run(tier):
                         clause, show_inputs(inp), e["rc"], e["threw"],
                         json.dumps([[x["k"], "".join(x["key"])[:30]] for x in e["ev"]])[:300])
                     found.setdefault(k, [0, desc, {"abstract": case, "inputs": show_inputs(inp), "line": e}])[0] += 1
+            elif e["e"] == "Table":
+                names = [["".join(o["name"])] + ["".join(x) for x in o["syn"]] for o in e["opts"] if not o["builtin"]]
+                found.setdefault("table:names", [0, "the option table does not hold every registered name list as name + synonyms: registered %s, table %s"
+                                                 % (json.dumps(["".join(x) for x in e["decls"]]), json.dumps(names)), {"table": names}])[0] += 1
             elif e["e"] == "Crash" and str(e.get("ctx", "")).isdigit():
                 inp, case = inputs[int(e["ctx"])], abstract[int(e["ctx"])]
                 k = "crash:%s" % crash_shape(case)
